@@ -311,6 +311,10 @@ pub struct Bpe {
     /// Map from byte values to token IDs.
     byte_to_token_id: [TokenId; 256],
 
+    /// Map from byte values to IDs of the tokens for the byte followed by the
+    /// end-of-word suffix. Only populated if an end-of-word suffix is used.
+    byte_to_eow_token_id: [TokenId; 256],
+
     /// Map from byte values to printable character representation used in
     /// vocabulary.
     byte_to_char: [char; 256],
@@ -364,6 +368,21 @@ impl Bpe {
             }
         }
 
+        // Build byte -> token ID mapping for bytes which occur at the end of a
+        // piece, when an end-of-word suffix is used.
+        let mut byte_to_eow_token_id = [0; 256];
+        if let Some(suffix) = end_of_word_suffix.as_deref() {
+            for (i, ch) in byte_to_char().into_iter().enumerate() {
+                let mut token = String::from(ch);
+                token.push_str(suffix);
+                if let Some(id) = vocab.get(&token).copied() {
+                    byte_to_eow_token_id[i] = id;
+                } else {
+                    return Err(BpeError::MissingVocabEntry(token));
+                }
+            }
+        }
+
         // If the `ignore_merges` flag is set for this tokenizer, we'll need
         // to use the vocabulary during encoding.
         //
@@ -385,6 +404,7 @@ impl Bpe {
             added_tokens,
             byte_to_char: byte_to_char(),
             byte_to_token_id,
+            byte_to_eow_token_id,
             end_of_word_suffix,
             ignore_merges,
             merges,
@@ -424,9 +444,10 @@ impl Bpe {
         // with the one that corresponds to "{byte}{end_of_word_suffix}".
         if self.end_of_word_suffix.is_some()
             && end_of_word
-            && let Some(last) = tokens.pop()
+            && let Some(last) = tokens.last_mut()
+            && let Some(last_byte) = piece.as_bytes().last()
         {
-            tokens.push(last + 256);
+            *last = self.byte_to_eow_token_id[last_byte.as_usize()];
         }
 
         // Iteratively merge tokens together until no more are possible.
